@@ -258,6 +258,7 @@ func c20(c *Ctx) {
 	maskSetFile(c)
 	aliasPairsKeptApart(c)
 	basePointerViews(c)
+	contextDraws(c)
 	o.Oblig("Regs.regs_ok", "Regs.C20_name_denotes", "Regs.C20_ids_unique", "Regs.C20_no_invented_views", "Regs.C20_as_preserves_id_or_fails")
 	o.ExpectEmpty("Regs.v", "R_bad_entries", "violation", "a register's name/number/width/byte mask/flags do not denote the hardware register (table row index)")
 	o.ExpectTrue("Regs.v", "R_complete", "violation", "the set of views is not exactly the hardware's (missing or invented view, duplicate identity)")
